@@ -413,24 +413,38 @@ Proof.
 Qed.
 
 (* ------------------------------------------------------------------------------------- *)
-(** * Compact observations for the correspondence check (printing the full state after every
-      call is quadratic): per call (peer_pid, |self.bytes|, events, buffer keys with a waiting
-      flag, outs with the payload of [Resolved] dropped — it is in the [Deliver] event of the same
-      call); the full leftover bytes and buffer once, at the end. *)
+(** * Compact observations for the correspondence check.
+      Printing the full state after every call is quadratic, and this Coq prints (and parses)
+      numerals of more than a few digits very slowly; so: per call (peer_pid, |self.bytes|, events,
+      buffer labels with a waiting flag, outs); the full leftover bytes and buffer once, at the end;
+      every label pc is printed as its 8 bytes [enc_q pc] (injective on the signed 64-bit range, see
+      [dec_enc_q]), and receive labels are given as [Receive (dec_q bytes)]. *)
 
-Definition strip (o : out) : out := match o with Resolved pc _ => Resolved pc [] | _ => o end.
+Inductive pevent := PHandshake (pid : Z) (keys : list (list nat * list Z)) | PDeliver (pc8 payload : list Z).
+Inductive pout := PStored | PResolved (pc8 : list Z) | PDupError | PGot (p : list Z) | PNewFuture | POldFuture.
+
+Definition pev (e : event) : pevent :=
+  match e with Handshake pid ks => PHandshake pid ks | Deliver pc p => PDeliver (enc_q pc) p end.
+
+Definition po (o : out) : pout :=
+  match o with
+  | Stored => PStored | Resolved pc _ => PResolved (enc_q pc) | DupError => PDupError
+  | Got p => PGot p | NewFuture => PNewFuture | OldFuture => POldFuture
+  end.
 
 Definition compact (x : state * list event * buffer * list out)
-  : option Z * Z * list event * list (Z * bool) * list out :=
+  : option Z * Z * list pevent * list (list Z * bool) * list pout :=
   let '(s, evs, b, os) := x in
-  (fst s, len (snd s), evs,
-   map (fun e => (fst e, match snd e with Waiting => true | Payload _ => false end)) b,
-   map strip os).
+  (fst s, len (snd s), map pev evs,
+   map (fun e => (enc_q (fst e), match snd e with Waiting => true | Payload _ => false end)) b,
+   map po os).
 
 Definition sim_c (np : bool) (subs : Z -> list (list nat)) (s : state) (b : buffer) (ins : list input)
-  : list (option Z * Z * list event * list (Z * bool) * list out) * (list Z * buffer) :=
+  : list (option Z * Z * list pevent * list (list Z * bool) * list pout) * (list Z * list (list Z * slot)) :=
   let tr := sim np subs s b ins in
   (map compact tr,
-   match last tr (s, [], b, []) with (sf, _, bf, _) => (snd sf, bf) end).
+   match last tr (s, [], b, []) with
+   | (sf, _, bf, _) => (snd sf, map (fun e => (enc_q (fst e), snd e)) bf)
+   end).
 
 Definition sim_c_mt (np : bool) (m t me : nat) := sim_c np (matching m t me).
